@@ -420,6 +420,7 @@ theorem Inv_step (c : Config) (i : Nat) (h : Inv c) : Inv (stepAt c i) := by
       simp only [stepThread]
       split
       · apply Inv_local c i _ _ h hi <;> intro x hx <;> simp_all [holds, uses, crit, post]
+      · apply Inv_local c i _ _ h hi <;> intro x hx <;> simp_all [holds, uses, crit, post]
       · split
         · apply Inv_local c i _ _ h hi <;> intro x hx <;> simp_all [holds, uses, crit, post]
         · apply Inv_local c i _ _ h hi <;> intro x hx <;> simp_all [holds, uses, crit, post]
@@ -507,7 +508,7 @@ theorem Inv_step (c : Config) (i : Nat) (h : Inv c) : Inv (stepAt c i) := by
       simp only [stepThread]
       exact Inv_delete c i _ _ k a h hi rfl rfl
 
-theorem Inv_init (files : List (Key × V)) (progs : List (List Key)) : Inv (Config.init files progs) := by
+theorem Inv_init (files : List (Key × V)) (progs : List (List FOp)) : Inv (Config.init files progs) := by
   have hidle : ∀ (i : Nat) (t : Thread), (Config.init files progs).th[i]? = some t → t.pc = PC.idle := by
     intro i t ht
     have := List.mem_of_getElem? ht
@@ -558,6 +559,7 @@ theorem Sourced_step (c : Config) (i : Nat) (h : Sourced c) : Sourced (stepAt c 
       simp only [stepThread]
       split
       · exact h
+      · exact h
       · split <;> exact h
     | ldCheck k => simp only [stepThread]; split <;> exact h
     | ldFind k => simp only [stepThread]; split <;> exact h
@@ -594,7 +596,7 @@ theorem Sourced_reachable {c0 c : Config} (h0 : Sourced c0) (h : Reachable c0 c)
   | init => exact h0
   | step i _ ih => exact Sourced_step _ i ih
 
-theorem Sourced_init (files : List (Key × V)) (progs : List (List Key)) : Sourced (Config.init files progs) := by
+theorem Sourced_init (files : List (Key × V)) (progs : List (List FOp)) : Sourced (Config.init files progs) := by
   intro k v hb; simp [Config.init, lk] at hb
 
 /-- running threads one step at a time -/
